@@ -505,6 +505,14 @@ func downloadImpl(ctx context.Context, name, sha3_384, downloadURL string, user 
 			if _, err := w.Seek(0, io.SeekStart); err != nil {
 				return err
 			}
+			// the content is written again from the start, what is
+			// there already may be longer than what is coming and
+			// only the new bytes are hashed: leave no stale tail
+			if tw, ok := w.(interface{ Truncate(size int64) error }); ok {
+				if err := tw.Truncate(0); err != nil {
+					return err
+				}
+			}
 			h = crypto.SHA3_384.New()
 			resume = 0
 		}
